@@ -189,8 +189,9 @@ func (f *Fetcher) genRanges(ctx context.Context) <-chan fetchRange {
 
 		for start < end || f.opts.Continuous {
 			// In continuous mode wait for bigger STH every time we reach the end,
-			// including, possibly, the very first iteration.
-			if start == end { // Implies f.opts.Continuous == true.
+			// including, possibly, the very first iteration; a start index beyond
+			// the tree waits until the tree has grown past it.
+			for start >= end { // Implies f.opts.Continuous == true.
 				if err := f.updateSTH(ctx); err != nil {
 					klog.Warningf("%s: Failed to obtain bigger STH: %v", f.uri, err)
 					return
